@@ -7,7 +7,7 @@
 //@ fn src/wasm.rs :: WasmKeeper :: execute_submsg
 //@   ret r
 //@   no_decreases
-//@   ensures [C02.submsg.sem,C01,C03,C04,C05,C17] (r, final(storage).view()) == self.submsg_sem(router, old(storage).view(), *block, contract, msg)
+//@   ensures [C02.submsg.sem,C01,C03,C04,C05,C10,C17] (r, final(storage).view()) == self.submsg_sem(router, old(storage).view(), *block, contract, msg)
 //@   begin broadcast use {axiom_vec_canon, axiom_vec_of_view};
 //@   replace_re? "\\|write_cache, (?P<U>_vx\\d+)\\| \\{" => "|write_cache: &mut dyn Storage, \\g<U>: &dyn Storage| -> (cr: AnyResult<AppResponse>) ensures (cr, final(write_cache).view()) == router.exec_sem(old(write_cache).view(), *block, contract, msg) {"
 //@   before? "let reply_res = self.reply(" proof { let sr = reply.result->Ok_0; assert(sr.events@ =~= r.events@); lemma_vec_eq(sr.events, r.events); assert(sr.msg_responses@.len() == 1); let v = sr.msg_responses@[0].value; assert(r.data is None ==> v.b@ =~= Seq::<u8>::empty()); if r.data is None { axiom_vec_canon(v.b); } assert(r.data is None ==> v == empty_binary()); assert(sr.msg_responses@ =~= seq![MsgResponse { type_url: spec_type_url(msg), value: match r.data { Some(d) => d, None => empty_binary() } }]); }
